@@ -255,4 +255,4 @@ class CardanoByronLegacy:
         Returns:
             str: Derivation path
         """
-        return f"m/{first_idx}'/{second_idx}'"
+        return f"m/{int(first_idx)}'/{int(second_idx)}'"
